@@ -7,6 +7,7 @@ pending events.  `C01.model_refines_spec` transports it to the calendar queue fo
 -/
 import Desverif.Proofs.FESOrder
 import Desverif.Props.C01
+import Desverif.Props.C14
 namespace C03
 open CQRun
 open CQ (Ev)
@@ -65,6 +66,22 @@ theorem fifo_no_overtaking (ops : List Op) :
   have := (oinv_ord ops).zlt
   rw [ord_state] at this
   exact this
+
+/-- **Net layer: the messages and events one callback emits are handed to the future event set in
+    program order** (so, by the rules above, same-instant emissions of one callback are delivered
+    in program order): the kernel model's buffer flush (`buf_process`) extends the table of
+    scheduled events — whose index is the scheduling order, the tie-breaker above — by the wake-up
+    (if any) and then exactly the pushes in the order they were made. Re-export of
+    `C14.flush_in_push_order`; the pushes themselves are in program order by
+    `C14.emissions_in_program_order`. -/
+theorem handler_emissions_flushed_in_program_order (s : Proc.Sim) (mi : Nat) (kind : Proc.Kind)
+    (m : Proc.ModRt) (hm : s.mods[mi]? = some m)
+    (hok : (s.moduleEvent mi kind true).fault = none) :
+    (s.moduleEvent mi kind true).evs.toList =
+      s.evs.toList
+        ++ ((Proc.runEvent ⟨mi, s.fes.cur⟩ m kind).wake.map fun _ => Proc.KEvent.wakeup mi).toList
+        ++ (Proc.pushShape ⟨mi, s.fes.cur⟩ m kind).map (·.1) :=
+  C14.flush_in_push_order s mi kind m hm hok
 
 /-! Non-vacuity: ties straddling a "year" wrap (n·t = 4), a zero-delay follow-up scheduled between
 two fetches of the same instant. -/
